@@ -1935,10 +1935,10 @@ def _concretize(c: Contract, law_attr, eq, model, tr, args, cond, R, H, rng) -> 
                 with _quiet():
                     replay_point(c.modname, c.fname, law_attr, entries, c.op, _contract=c)
             except AssertionError as e:
-                # make sure the point is inside the domain the obligation was posed on: the law has a real solution
-                if not _law_satisfiable_at(H, pt):
-                    last = "point outside the law-satisfiable domain"
-                    continue
+                # The real function RETURNED a value at this point and the published equation fails for it: that is what the
+                # property forbids, whether or not the law has a real solution for these arguments (a function that returns a
+                # value where no value can satisfy the law must refuse instead; seed C02-r4m2).  Until round 4 such points were
+                # skipped as "outside the law-satisfiable domain", which turned that kind of violation into an undecided result.
                 return {"reproduced": True, "inputs": {k: str(v) for k, v in entries.items()},
                         "script": replay_script(c, law_attr, entries), "message": str(e)[:400]}
             except Exception as e:  # refused / not evaluable at this point
@@ -2796,6 +2796,8 @@ def process_hook() -> dict:
 # ===================================================================================== crash-isolating pool
 def _pool_worker(inq, outq, mem_gb):
     import resource
+    from .core import die_with_parent
+    die_with_parent()
     try:
         lim = int(mem_gb * (1 << 30))
         resource.setrlimit(resource.RLIMIT_AS, (lim, lim))
